@@ -291,6 +291,10 @@ def run(ctx):  # noqa: C901, PLR0912, PLR0915
     from .c04 import description_report_parts
     description_report_parts(ctx, 'C01.R1')   # what the consumer is told about descriptors is complete
     common.observers_all_notified(ctx, 'C01.R1')   # every commit reaches the report sender
+    common.update_from_other_is_total(ctx, 'C01.R2')
+    from .c02 import handouts_are_versioned
+    handouts_are_versioned(ctx, 'C01.R2')   # what is committed carries a version the mirrors accept
+    common.copies_are_deep(ctx, 'C01.R1')   # what is reported is what was committed: the published copies share nothing
     # ------------------------------------------------------------------ R2
     upd_funcs = {}
     for h in STATE_HANDLERS:
